@@ -8,7 +8,7 @@ import hashlib, json, os, re, subprocess, sys, time, random, shutil, glob
 
 ROOT = os.path.dirname(os.path.dirname(os.path.abspath(__file__)))
 REPO = os.environ.get("VERIF_REPO", "/repo")
-BUILD = os.path.join(ROOT, "build")
+BUILD = os.environ.get("VERIF_BUILD") or os.path.join(ROOT, "build")
 COQ = os.path.join(ROOT, "coq")
 THEORIES = os.path.join(COQ, "theories")
 EVID = os.path.join(ROOT, "evidence")
@@ -118,13 +118,34 @@ def textual_scan():
     return bad
 
 
-def coq_make(timeout=3000):
-    if not os.path.exists(os.path.join(COQ, "Makefile")):
-        rc, so, se = sh("coq_makefile -f _CoqProject -o Makefile", cwd=COQ, timeout=60)
-        if rc != 0:
-            return False, so + se
-    rc, so, se = sh("make -j%d" % NPROC, cwd=COQ, timeout=timeout)
-    return rc == 0, (so + se)[-4000:]
+def _coqproject_text():
+    vs = sorted(os.path.basename(f) for f in glob.glob(os.path.join(THEORIES, "*.v")))
+    return "-Q theories Parmcb\n" + "".join("theories/%s\n" % v for v in vs)
+
+
+def coq_make(timeout=3000, targets=None):
+    """full .vo build of every theories/*.v (make -k), serialised by a lock file so that concurrent checks do not race.
+    _CoqProject is regenerated from the directory listing.  A .vo older than its .v is deleted first, so that a file
+    which no longer compiles leaves no stale .vo behind.  Returns (all_ok, log)."""
+    import fcntl
+    os.makedirs(BUILD, exist_ok=True)
+    with open(os.path.join(COQ, ".make.lock"), "w") as lk:
+        fcntl.flock(lk, fcntl.LOCK_EX)
+        txt = _coqproject_text()
+        cp = os.path.join(COQ, "_CoqProject")
+        regen = not os.path.exists(os.path.join(COQ, "Makefile"))
+        if not os.path.exists(cp) or open(cp).read() != txt:
+            open(cp, "w").write(txt); regen = True
+        if regen:
+            rc, so, se = sh("coq_makefile -f _CoqProject -o Makefile", cwd=COQ, timeout=60)
+            if rc != 0:
+                return False, so + se
+        for v in glob.glob(os.path.join(THEORIES, "*.v")):
+            vo = v + "o"
+            if os.path.exists(vo) and os.path.getmtime(vo) < os.path.getmtime(v):
+                os.remove(vo)
+        rc, so, se = sh("make -k -j%d %s" % (NPROC, " ".join(targets or [])), cwd=COQ, timeout=timeout)
+        return rc == 0, (so + se)[-4000:]
 
 
 def parse_assumptions(output):
@@ -156,8 +177,7 @@ def prove(theorem_files):
     if bad:
         res["problems"] += ["forbidden: " + b for b in bad]
     ok, log = coq_make()
-    if not ok:
-        res["problems"].append("coq build failed: " + log[-1500:])
+    res["full_build_ok"] = ok          # a failure elsewhere in the development matters only if this property's files need it
     for tf in theorem_files:
         path = os.path.join(THEORIES, tf)
         src = strip_comments(open(path).read())
@@ -202,24 +222,30 @@ def prove(theorem_files):
 # --------------------------------------------------------------------------------------
 # model (extracted OCaml)
 # --------------------------------------------------------------------------------------
-def ensure_model():
-    """extract and compile build/model (cached on the content of theories, Extract.v, driver.ml)"""
-    os.makedirs(os.path.join(BUILD, "ocaml"), exist_ok=True)
-    srcs = coq_files() + [os.path.join(ROOT, "ocaml", "driver.ml")]
+def ensure_model(group=None):
+    """extract and compile build/model[_<group>] (cached on the content of theories, the Extract file and the driver).
+    group None = coq/extract/Extract.v + ocaml/driver.ml; group g = coq/extract/Extract_g.v + ocaml/common.ml + ocaml/driver_g.ml"""
+    sfx = "" if not group else "_" + group
+    od = os.path.join(BUILD, "ocaml" + sfx)
+    os.makedirs(od, exist_ok=True)
+    ex_v = os.path.join(COQ, "extract", "Extract%s.v" % sfx)
+    drv = os.path.join(ROOT, "ocaml", "driver%s.ml" % sfx)
+    common = os.path.join(ROOT, "ocaml", "common.ml")
+    srcs = sorted(f for f in glob.glob(os.path.join(THEORIES, "*.v")) if not re.search(r"(Proofs|Lemmas|Properties_\w+)\.v$", f)) + [ex_v, drv] + ([common] if group else [])
     key = file_hash(srcs)
-    stamp = os.path.join(BUILD, "model.stamp")
-    exe = os.path.join(BUILD, "model")
+    stamp = os.path.join(BUILD, "model%s.stamp" % sfx)
+    exe = os.path.join(BUILD, "model" + sfx)
     if os.path.exists(exe) and os.path.exists(stamp) and open(stamp).read() == key:
         return True, ""
-    ok, log = coq_make()
-    if not ok:
-        return False, "coq build failed: " + log
-    od = os.path.join(BUILD, "ocaml")
-    rc, so, se = sh(["coqc", "-Q", THEORIES, "Parmcb", os.path.join(COQ, "extract", "Extract.v")], cwd=od, timeout=1200)
+    coq_make()
+    rc, so, se = sh(["coqc", "-Q", THEORIES, "Parmcb", ex_v], cwd=od, timeout=1200)
     if rc != 0:
         return False, "extraction failed: " + (so + se)[-2000:]
-    shutil.copy(os.path.join(ROOT, "ocaml", "driver.ml"), od)
-    rc, so, se = sh("ocamlfind ocamlopt -w -a model.mli model.ml driver.ml -o ../model", cwd=od, timeout=600)
+    shutil.copy(drv, os.path.join(od, "driver.ml"))
+    files = "model.mli model.ml driver.ml"
+    if group:
+        shutil.copy(common, od); files = "model.mli model.ml common.ml driver.ml"
+    rc, so, se = sh("ocamlfind ocamlopt -O3 -w -a %s -o %s" % (files, exe), cwd=od, timeout=600)
     if rc != 0 or not os.path.exists(exe):
         return False, "ocaml build failed: " + (so + se)[-2000:]
     open(stamp, "w").write(key)
@@ -289,8 +315,8 @@ def run_lines(cmd, lines, timeout=900, par=NPROC, env=None, cwd=None):
     return [l for r in results for l in r]
 
 
-def run_model(component, lines, timeout=900, par=NPROC):
-    return run_lines([os.path.join(BUILD, "model"), component], lines, timeout=timeout, par=par)
+def run_model(component, lines, timeout=900, par=NPROC, group=None):
+    return run_lines([os.path.join(BUILD, "model" + ("_" + group if group else "")), component], lines, timeout=timeout, par=par)
 
 
 # --------------------------------------------------------------------------------------
@@ -410,8 +436,8 @@ class Check:
                            {"theorem_or_correspondence": pb, "kind": "proof"}, found_input=False)
         return not self.proof["problems"]
 
-    def step_model(self):
-        ok, log = ensure_model()
+    def step_model(self, group=None):
+        ok, log = ensure_model(group)
         if not ok:
             self.violation("model does not build: " + log[-300:], {"theorem_or_correspondence": "extraction/ocaml build", "log": log, "kind": "model-build"}, found_input=False)
         return ok
